@@ -111,15 +111,17 @@ func (r *Recorder) BySite(site string) []Call {
 
 // ---- bank keeper wrapper (adapter, forwarder, fee) ----
 
+// The real keeper is embedded, so that any other bank method the module may come to use (a
+// changed expected-keeper interface) is served by the real keeper without instrumentation.
 type bankWrap struct {
-	real bankkeeper.Keeper
-	rec  *Recorder
+	bankkeeper.Keeper
+	rec *Recorder
 }
 
 // GetBalance cannot fail; the injected fault is a wrong answer (one unit too many), which is what
 // makes the forwarder's balance precondition (or the sweep) fail.
 func (b bankWrap) GetBalance(ctx context.Context, addr sdk.AccAddress, denom string) sdk.Coin {
-	c := b.real.GetBalance(ctx, addr, denom)
+	c := b.Keeper.GetBalance(ctx, addr, denom)
 	if err := b.rec.hit("bank.GetBalance", addr.String()+" "+denom); err != nil {
 		c.Amount = c.Amount.AddRaw(1)
 	}
@@ -130,17 +132,17 @@ func (b bankWrap) SendCoinsFromModuleToModule(ctx context.Context, from, to stri
 	if err := b.rec.hit("bank.SendCoinsFromModuleToModule", from+"->"+to+" "+amt.String()); err != nil {
 		return err
 	}
-	return b.real.SendCoinsFromModuleToModule(ctx, from, to, amt)
+	return b.Keeper.SendCoinsFromModuleToModule(ctx, from, to, amt)
 }
 
 func (b bankWrap) SendCoins(ctx context.Context, from, to sdk.AccAddress, amt sdk.Coins) error {
 	if err := b.rec.hit("bank.SendCoins", from.String()+"->"+to.String()+" "+amt.String()); err != nil {
 		return err
 	}
-	return b.real.SendCoins(ctx, from, to, amt)
+	return b.Keeper.SendCoins(ctx, from, to, amt)
 }
 
-func (b bankWrap) BlockedAddr(addr sdk.AccAddress) bool { return b.real.BlockedAddr(addr) }
+func (b bankWrap) BlockedAddr(addr sdk.AccAddress) bool { return b.Keeper.BlockedAddr(addr) }
 
 // ---- CCTP message server wrapper ----
 
@@ -278,7 +280,7 @@ func New(w *world.World, opt Options) (*Stack, error) {
 	rec := &Recorder{Count: map[string]int{}, Plan: Plan{}}
 	logger := log.NewNopLogger()
 	evs := eventWrap{real: runtime.EventService{}, rec: rec}
-	bank := bankWrap{real: app.BankKeeper, rec: rec}
+	bank := bankWrap{Keeper: app.BankKeeper, rec: rec}
 	k := keeper.NewKeeper(
 		w.Cdc,
 		authcodec.NewBech32Codec("noble"),
